@@ -231,7 +231,7 @@ Proof.
 Qed.
 
 Lemma look_agree_at c x y s : agree x y -> rest c = s ->
-  agree (look false c x) (match y with Some (Some _) => Some (Some s) | z => z end).
+  agree (look false c x) (match y with Some (Some _) => Some (Some s) | Some None => Some None | None => None end).
 Proof. intros H <-. destruct x as [[| |e] c1 e1| |]; simpl in *; try contradiction; rewrite H; reflexivity. Qed.
 Lemma look_agree_not c x y s : agree x y -> rest c = s ->
   agree (look true c x) (match y with Some (Some _) => Some None | Some None => Some (Some s) | None => None end).
@@ -279,9 +279,9 @@ Proof.
     + pose proof (ev_req_fail G C HG _ _ _ _ _ _ E) as ->. reflexivity.
     + reflexivity.
   - (* at *) destruct subs as [|r1 [|? ?]]; try discriminate Hs. cbn [eval_atom]. unfold h_at.
-    apply look_agree_at; [apply IH; exact Hb | reflexivity].
+    apply (look_agree_at c _ (go r1 (rest c)) (rest c)); [apply IH; exact Hb | reflexivity].
   - (* not_at *) destruct subs as [|r1 [|? ?]]; try discriminate Hs. cbn [eval_atom]. unfold h_at.
-    apply look_agree_not; [apply IH; exact Hb | reflexivity].
+    apply (look_agree_not c _ (go r1 (rest c)) (rest c)); [apply IH; exact Hb | reflexivity].
   - (* until *) destruct subs as [|cn [|r1 [|? ?]]]; try discriminate Hs. cbn [eval_atom]. unfold h_until2.
     apply agree_guard. apply until_agree. exact Hb.
   - (* rep *) destruct subs as [|r1 [|? ?]]; try discriminate Hs. cbn [eval_atom]. unfold h_rep.
